@@ -29,6 +29,8 @@ type MsgOpts struct {
 	NoNaN      bool
 	// OnlyDeclaredEnums avoids out-of-range numbers for open enums too.
 	OnlyDeclaredEnums bool
+	// ForceUnknown adds unknown fields even to messages that cannot store them.
+	ForceUnknown bool
 	// Resolver for extensions (default GlobalTypes).
 	Resolver *protoregistry.Types
 	// ByNumber: derive each field's stream from its number, so that messages of
@@ -285,7 +287,7 @@ func fill(r *core.Rand, m protoreflect.Message, o MsgOpts, depth int) {
 		if o.ByNumber {
 			rr = r.Fork(99999999)
 		}
-		if rr.Chance(1, 3) {
+		if rr.Chance(1, 3) && (o.ForceUnknown || KeepsUnknown(m)) {
 			m.SetUnknown(RandUnknown(rr, md, o.Resolver))
 		}
 	}
